@@ -623,6 +623,22 @@ def directed_sequences(rng):
         out.append(dict(kind="seq", terms=terms, ops=[dict(op="update", rep="log"), gen_path(rng, "log", 1, True),
                                                       dict(op="update", rep="id"), gen_path(rng, "id", 1, True),
                                                       dict(op="update", rep="log"), gen_path(rng, "log", 1, True)]))
+    for k in ("maxperf", "nthspot", "mean"):
+        # scalar underlyings of a multi-dimensional path against a plain Python list of strikes, in both representations
+        u = dict(k=k)
+        if k == "maxperf":
+            u["s0"] = [g8(rng, 0.5, 3), g8(rng, 0.5, 3)]
+        if k == "nthspot":
+            u["i"] = rng.randint(1, 2)
+        terms = dict(und=u, pay=dict(k="vanv", call=rng.random() < 0.5, Ks=[strike(rng), strike(rng)], as_list=True), notional=2.0)
+        out.append(dict(kind="seq", terms=terms, ops=[gen_path(rng, "id", 2, False), dict(op="update", rep="log"),
+                                                      gen_path(rng, "log", 2, False)]))
+    # n-th to default in the identity representation (jump path given as spot-scale factors), then in the log one
+    for n in (1, 2, 3):
+        terms = dict(und=dict(k="nth", i=n, **{"as": [rng.choice(LEVELS) for _ in range(3)]}),
+                     pay=dict(k="cds", R=0.25, s=0.015625, T=2.0, d0=1.0, d1=-0.03125), notional=1.0)
+        out.append(dict(kind="seq", terms=terms, ops=[gen_path(rng, "id", 3, False), dict(op="update", rep="log"),
+                                                      gen_path(rng, "log", 3, False)]))
     return out
 
 
